@@ -24,7 +24,7 @@ package ttlv
 // binary reader
 
 //@ func newTTLVReader
-//@   ensures r1 == nil ==> r0 != nil && isnew(r0) && r0.buf == buf && hdOK(buf)
+//@   ensures r1 == nil ==> r0 != nil && isnew(r0) && r0.buf == buf && cap(r0.buf) == cap(buf) && hdOK(buf)
 //@   ensures r1 != nil ==> r0 == nil
 //@   ensures hdOK(buf) ==> r1 == nil
 //@   pure
@@ -116,14 +116,21 @@ package ttlv
 //@   ensures r1 == nil ==> r0 == int32(old(be32(dec.buf, 8))) && advanced(dec.buf, old(dec.buf)) && hdOK(dec.buf)
 //@   modifies dec.buf
 
+//@ ghostvar cbCalls int
+//@ ghostvar cbBuf []byte
+
 //@ functype func(ttlv.reader) error
 //@   params r
 //@   requires typeis(r, *ttlvReader) ==> dyn(r, *ttlvReader) != nil && hdOK(dyn(r, *ttlvReader).buf)
 //@   modifies dyn(r, *ttlvReader).buf
+//@   ghost cbCalls = old(cbCalls) + 1
+//@   ghost cbBuf = old(dyn(r, *ttlvReader).buf)
 
 //@ func (*ttlvReader).Struct
 //@   requires dec != nil && hdOK(dec.buf) && f != nil
 //@   ensures r0 == nil ==> old(len(dec.buf)) > 0 && old(dec.buf[3]) == 1 && advanced(dec.buf, old(dec.buf)) && hdOK(dec.buf)
+//@   ensures cbCalls == old(cbCalls) || cbCalls == old(cbCalls)+1
+//@   ensures cbCalls == old(cbCalls)+1 ==> cbBuf == old(dec.buf)[8:8+old(lenOf(dec.buf))] && cap(cbBuf) == len(cbBuf)
 //@   modifies dec.buf
 
 //@ func bytesToBigInt
